@@ -156,8 +156,11 @@ def c05_run(item: dict) -> dict:
     res = {"run_seed": run_seed, "shape": lib.shape, "n_macros": len(lib.macros), "configs": 0, "violations": [], "kinds": {},
            "vfs_calls": 0, "import_styles": {}, "edit_histories": 0}
 
-    def viol(clause, kind, payload):
-        res["violations"].append({"sig": {"clause": clause, "kind": kind}, "payload": payload})
+    def viol(clause, kind, payload, shape=None):
+        sig = {"clause": clause, "kind": kind}
+        if shape:
+            sig["shape"] = shape
+        res["violations"].append({"sig": sig, "payload": payload})
 
     ref_src = macrolib.single_file_source(lib, lib.order)
     ref = compile_once(_single_vfs(ref_src), "/proj/SCRIPT/main.exps", [])
@@ -177,7 +180,8 @@ def c05_run(item: dict) -> dict:
     if "ok" in inl:
         res["kinds"]["textual-inlining"] = res["kinds"].get("textual-inlining", 0) + 1
         if ops_view(inl["ok"]) != ref_view:
-            viol("macro-call-equals-inlined-body", "ops-differ", {"source": ref_src, "inlined_source": inl_src})
+            viol("macro-call-equals-inlined-body", "ops-differ", {"source": ref_src, "inlined_source": inl_src},
+                 shape="outer-parameter-named-like-a-variable-of-a-nested-callee" if lib.captures() else None)
     else:
         # a string argument that reaches a condition through two levels of parameters has no textual counterpart
         res["kinds"]["textual-inlining-not-expressible"] = res["kinds"].get("textual-inlining-not-expressible", 0) + 1
@@ -371,8 +375,8 @@ def real_fs_validation(item: dict) -> dict:
         for p, n in w.vfs.nodes.items():
             if n[0] == "f":
                 os.makedirs(os.path.dirname(td + p), exist_ok=True)
-                with open(td + p, "w", encoding="utf-8") as f:
-                    f.write(n[1].decode().replace('import "/', f'import "{td}/'))
+                with open(td + p, "w", encoding="utf-8", newline="") as f:
+                    f.write(n[1].decode().replace('import "/', f'import "{td}/').replace("import '/", f"import '{td}/"))
             elif n[0] == "l":
                 os.makedirs(os.path.dirname(td + p), exist_ok=True)
                 os.symlink(td + n[1] if n[1].startswith("/") else n[1], td + p)
